@@ -223,10 +223,12 @@ Proof.
   set (st1 := set_clients st [c1]).
   assert (HI1 : Inv st1).
   { unfold Inv, st1. destruct st; ssimpl. repeat split; try assumption. constructor; [|constructor].
-    eapply invc_Fext; [|exact Ic1]. intros a b _. unfold fb_for. f_equal.
-    unfold c1, request_client. destruct (req_clip _ _ _ _ _ _) as [[[[? ?] ?] ?]|]; [|reflexivity].
-    destruct (_ || _); [reflexivity|].
-    destruct c; csimpl. destruct cUseExt; reflexivity. }
+    eapply invc_Fext; [|exact Ic1]. intros a b _.
+    assert (Hb : cBpp c1 = cBpp c).
+    { unfold c1, request_client. destruct (req_clip _ _ _ _ _ _) as [[[[? ?] ?] ?]|]; [|reflexivity].
+      destruct (_ || _); [reflexivity|].
+      destruct c; csimpl. destruct cUseExt; reflexivity. }
+    unfold fb_for. rewrite Hb. reflexivity. }
   assert (Hs1 : send_client st1 c1 = Some (c', Some (n, rects))) by (unfold st1; destruct st; exact Hs).
   assert (Hmem : rgn_mem (cM c1) x0 y0 = true /\ rgn_mem (cR c1) x0 y0 = true).
   { destruct Hok as (Hx & Hy & Hwn & Hhn). unfold c1, request_client.
@@ -497,7 +499,7 @@ Qed.
 Lemma setpixelformat_resync st c bpp :
   Inv st -> In c (sClients st) ->
   let c' := setpf_client st bpp c in
-  InvC (sW st) (sH st) (fb_for st c') c' /\ cBpp c' = bpp.
+  InvC (sW st) (sH st) (fb_for st c') c' /\ cBpp c' = mkX (sBpp st) bpp.
 Proof.
   intros (HW & HH & _ & Hcl) Hin c'. rewrite Forall_forall in Hcl.
   apply (inv_setpf st (fb_for st c) (fb_for st c') bpp c HW HH (Hcl c Hin)).
